@@ -448,8 +448,25 @@ pub fn got_type_ok(stderr: &str, want: &str) -> Result<(), String> {
     Ok(())
 }
 
+// `->type()` is defined for every value except null - also when the bound
+// type function travels before it is called (returned, kept in a list, passed,
+// spread, captured ...). Oracle: the reference run.
+fn routed_type_functions(ctx: &Ctx) -> Vec<(Case, bool)> {
+    let pre = format!("{PRELUDE}s := \"héllo\"\nxs := [1, 2]\nob0 := {{\"a\": 1}}\n");
+    let callables = ["5->type", "true->type", "s->type", "s->len", "\"\"->len", "xs->type", "ob0->type", "usr->type", "anon->type", "print->type", "(1 .. 3)->type", "xs[0]->type", "ob0.a->type", "nul->type"];
+    let mut srcs = vec![];
+    for b in callables {
+        for (route, body) in crate::props::common::callable_routes(b) {
+            // Through an object the access path decides the receiver (C14).
+            if route.starts_with("object") { continue; }
+            srcs.push((format!("{pre}{body}"), format!("`{b}` called after: {route}")));
+        }
+    }
+    crate::props::common::source_cases(ctx, "C16", "routed_type_function", "type function called after it travelled", srcs)
+}
+
 pub fn run(ctx: &Ctx) {
-    ctx.set_rule("the full matrix: 15 binary operators x 8 x 8 ordered kinds (plain form), 5 arithmetic operators x 64 x 4 op-assign target forms, 35 typed contexts x 8 kinds x 2 representatives, every out-of-domain operator cell again over 2..12 look-alike values per kind (numeric strings, empty / one-element / 70-element containers, 0 / 1 / large integers; quick: one pair per cell plus a seventh of the rest), type functions x kinds; `==` / `!=` x 8 x 8 kinds with the ill-typed pair between sub-containers that already met other partners in the same comparison (5 sharing shapes, every other pair equal); oracle: the table in the property statement (in domain => value checked; otherwise exit 103 naming operator and both operand types in order with the names ->type() uses). Every cell is non-trivial; distinct = distinct cells");
+    ctx.set_rule("the full matrix: 15 binary operators x 8 x 8 ordered kinds (plain form), 5 arithmetic operators x 64 x 4 op-assign target forms, 35 typed contexts x 8 kinds x 2 representatives, every out-of-domain operator cell again over 2..12 look-alike values per kind (numeric strings, empty / one-element / 70-element containers, 0 / 1 / large integers; quick: one pair per cell plus a seventh of the rest), type functions x kinds, and 14 bound type functions x 16 routes before the call (variable, list, argument, return, closure, spread, rest parameter, pattern, for, slice, range assignment, capture) against the reference run; `==` / `!=` x 8 x 8 kinds with the ill-typed pair between sub-containers that already met other partners in the same comparison (5 sharing shapes, every other pair equal); oracle: the table in the property statement (in domain => value checked; otherwise exit 103 naming operator and both operand types in order with the names ->type() uses). Every cell is non-trivial; distinct = distinct cells");
     ctx.replay_corpus(None);
     let mut cases = vec![];
     operator_matrix(ctx, &mut cases);
@@ -459,6 +476,7 @@ pub fn run(ctx: &Ctx) {
     value_zoo(ctx, &mut cases);
     context_matrix(ctx, &mut cases);
     type_function_matrix(ctx, &mut cases);
+    cases.extend(routed_type_functions(ctx));
     ctx.mark_exhaustive("operator x kind x kind matrix, op-assign matrix, context x kind matrix");
     // The `got '<T>'` clause needs the stderr text: judged here.
     use rayon::prelude::*;
